@@ -27,7 +27,9 @@ DEST="${DEST#./}"
 PKGDIR="./$(dirname "$DEST")"
 RUN=$(grep -o 'func Test[A-Za-z0-9_]*' "$SEED/demo_test.go" | sed 's/func //' | paste -sd'|')
 RACE=""; grep -qi -- '-race' "$SEED/README.md" && RACE="-race"
-demo() { (cd "$D" && cp "$SEED/demo_test.go" "$DEST" && go test $RACE -vet=off -count=1 -run "^($RUN)\$" "$PKGDIR" >"$D/.demo.log" 2>&1; rc=$?; rm -f "$DEST"; exit $rc); }
+# a demonstration that needs a 32-bit build says so in its README (GOARCH=386 go test ...)
+DEMOARCH=""; grep -q 'GOARCH=386 go test' "$SEED/README.md" && { DEMOARCH=386; RACE=""; }
+demo() { (cd "$D" && cp "$SEED/demo_test.go" "$DEST" && GOARCH=${DEMOARCH:-$(go env GOARCH)} go test $RACE -vet=off -count=1 -run "^($RUN)\$" "$PKGDIR" >"$D/.demo.log" 2>&1; rc=$?; rm -f "$DEST"; exit $rc); }
 demo; demo_clean=$?
 (cd "$D" && git init -q . >/dev/null 2>&1; git apply "$SEED/patch.diff") >"$D/.apply.log" 2>&1; applied=$?
 (cd "$D" && go build ./... >/dev/null 2>&1); build=$?
